@@ -152,6 +152,17 @@ def rejected_batch_cases(tier, seed):
                             for warm in (False, True):
                                 pre = [{"op": {"op": "get", "key": "warmup"}}] if warm else []
                                 yield {"kind": kind, "cfg": dict(extra, ignore_exc=ie), "calls": pre + [{"op": r}] + FOLLOW, "follow": True, "coalesce": False}
+    # megabytes of good items before the refused one (1.2, 2.5 and 5 MB in items of 100 and 300 KB), and very many keys before it
+    for kind, extra in (STACKS[0], STACKS[1], STACKS[3]):
+        for item, count in ((100000, 12), (300000, 8), (100000, 50)) if tier == "thorough" else ((100000, 12), (300000, 8)):
+            for nr in (False, True):
+                batch = {"good-%d" % j: b"z" * item for j in range(count)}
+                batch["bad key"] = b"v"
+                yield {"kind": kind, "cfg": dict(extra, ignore_exc=False, default_noreply=nr), "calls": [{"op": {"op": "get", "key": "warmup"}}, {"op": {"op": "set_many", "values": batch}}] + FOLLOW,
+                       "follow": True, "coalesce": bool(count % 2)}
+        for n in (10001, 25000):
+            keys = ["key-%d" % j for j in range(n)] + ["bad key"]
+            yield {"kind": kind, "cfg": dict(extra, ignore_exc=False), "calls": [{"op": {"op": "get_many", "keys": keys}}] + FOLLOW, "follow": True, "coalesce": False}
     # very many small items, the refused one far down the list
     for kind, extra in STACKS[:2]:
         for n in (999, 3000):
